@@ -252,19 +252,32 @@ example : natDec 120 = [49, 50, 48] := by decide
 
 `Lex` (Lemmas/TokLex.lean) = grammar tokens with plain, escape-free lexemes of the classes proved so far:
 NUMBER (ASCII digits), PERCENTAGE (digits `%`), DIMENSION (digits + plain identifier), HASH (`#` + letters, digits,
-`-`, `_`), IDENT (first code point a letter other than u/U or `_`, then letters, digits, `-`, `_`), the five match
-operators and CDO (fixed lexemes), the single-character tokens `,:;{}>[]`; `render` joins the lexemes with single
-spaces; `expected` is the list of (type, value) pairs with an S token between neighbours.
-Not yet covered by a theorem (classification oracle only): signed / fractional numbers, ATKEYWORD and the reserved
-at-rules, FUNCTION, STRING, URI, UNICODE-RANGE, COMMENT, CDC, identifiers that start with `-`, `u`, `U`, a
-non-ASCII code point or an escape. -/
+`-`, `_`), IDENT (first code point a letter other than u/U or `_`, then letters, digits, `-`, `_`), ATKEYWORD and the
+reserved at-rules in any letter case (`@` + plain identifier; the type is `atType`: the generated table looked up
+with the lower-cased spelling, else ATKEYWORD), the five match operators and CDO (fixed lexemes), the
+single-character tokens `,:;{}>[]`; `render` joins the lexemes with single spaces; `expected` is the list of
+(type, value) pairs with an S token between neighbours.
+Not yet covered by a theorem (classification oracle only): signed / fractional numbers, FUNCTION, STRING, URI,
+UNICODE-RANGE, COMMENT, CDC, identifiers that start with `-`, `u`, `U`, a non-ASCII code point or an escape. -/
 
-/-- **T5.6 (classes NUMBER, PERCENTAGE, DIMENSION, HASH, IDENT, match operators, CDO, single-character tokens)**:
-a text produced from such tokens separated by single spaces is recovered with exactly those token types and values,
-an S token between neighbours (partial-sheet mode, comments on or off). -/
-theorem lexeme_separation (doC : Bool) (ts : List Lex) (h : ∀ t ∈ ts, t.WF) :
+/-- **T5.6 (classes NUMBER, PERCENTAGE, DIMENSION, HASH, IDENT, ATKEYWORD incl. the reserved at-rules, match
+operators, CDO, single-character tokens)**: a text produced from such tokens separated by single spaces is recovered
+with exactly those token types and values, an S token between neighbours (partial-sheet mode, comments on or off).
+`@charset ` is a token of its own (`CHARSET_SYM`, trailing space included): the lexeme `@charset` is excluded by `WF`,
+and the text must not begin with `@charset `. -/
+theorem lexeme_separation (doC : Bool) (ts : List Lex) (h : ∀ t ∈ ts, t.WF)
+    (hcs : hasAt (render ts) charsetStart = false) :
     (tokenize (render ts) false doC).tokens.map proj = expected ts :=
-  tokenize_lexemes doC ts h
+  tokenize_lexemes doC ts h hcs
+
+theorem atkeyword_class (doC : Bool) (c : Nat) (cs stop : Cps) (hc : inR nameStart c = true)
+    (hcs : ∀ x ∈ cs, inR identRest x = true) (hs : Sep stop) :
+    scan false doC (64 :: c :: cs ++ stop) productions = .hit "ATKEYWORD" (64 :: c :: cs).length :=
+  scan_atkeyword doC c cs stop hc hcs hs
+
+/-- the reserved at-rules are recognised in any letter case; other at-keywords stay ATKEYWORD -/
+example : atType [64, 73, 109, 80, 111, 82, 116] = "IMPORT_SYM" ∧ atType [64, 102, 111, 110, 116, 45, 102, 97, 99, 101] = "FONT_FACE_SYM"
+    ∧ atType [64, 120] = "ATKEYWORD" := by decide
 
 /-- per class, whatever precedes: the scan at a lexeme followed by the end of the text or a space -/
 theorem number_class (doC : Bool) (d : Nat) (ds stop : Cps) (hd : ∀ c ∈ d :: ds, isDigit c = true) (hs : Sep stop) :
@@ -298,10 +311,12 @@ theorem fixed_class (doC : Bool) (name : String) (w : Cps) (k : Nat) (h : (name,
 
 /-- the hypotheses are satisfiable, and the statement means what it says: `ab { c : 12 }` with `~=` thrown in -/
 example : ∀ t ∈ [Lex.ident 97 [98], .fast 123, .ident 99 [], .fast 58, .num 49 [50], .fixed "INCLUDES" [126, 61] 13,
-    .pct 53 [48], .dim 49 [] 112 [120], .hash 102 [48, 48], .fast 125], t.WF := by
+    .pct 53 [48], .dim 49 [] 112 [120], .hash 102 [48, 48], .atkw 109 [101, 100, 105, 97], .fast 125], t.WF := by
   intro t ht
   simp only [List.mem_cons, List.mem_nil_iff, or_false] at ht
-  rcases ht with rfl | rfl | rfl | rfl | rfl | rfl | rfl | rfl | rfl | rfl <;> simp only [Lex.WF] <;> decide
+  rcases ht with rfl | rfl | rfl | rfl | rfl | rfl | rfl | rfl | rfl | rfl | rfl <;> simp only [Lex.WF] <;> decide
+
+example : hasAt (render [Lex.atkw 109 [101, 100, 105, 97], .ident 97 []]) charsetStart = false := by decide
 
 example : render [Lex.ident 97 [98], .fast 123, .num 49 [50], .fast 125] =
     [97, 98, 32, 123, 32, 49, 50, 32, 125] := by decide
